@@ -6,9 +6,14 @@ RULE = ("every string of length <= N over {a,\\n,\\r,\\t,é} x every byte offset
 ASSUME = ["oracle: line = number of \\n bytes before the offset, column = offset - index after the last such \\n"]
 
 
+# the same differential check interpreted by Miri
+MIRI = {"quick": ["--maxlen", "3", "--random", "10", "--files", "2"],
+        "thorough": ["--maxlen", "5", "--random", "400", "--files", "40"], "shards": 3, "shard_by_seed": True}
+
+
 def run(tier, seed):
     return run_probe_check("C25", tier, seed, RULE, ASSUME, corpus=True, extra=["--maxlen", "9" if tier == "thorough" else "7"],
-                           min_evals=100000)
+                           min_evals=100000, miri=MIRI)
 
 
 def replay(path):
